@@ -736,7 +736,8 @@ def _handler_case(method, target, rs, has_disp, mr, ho, go, deferred, ae, chunk,
         pairs = list(pairs)
         if ae is not None:
             pairs.append(('Accept-Encoding', ae))
-        h = RecHandler(target, hs.CIHeaders(pairs), hs.FakeStream(data), mk_server(registry, chunk))
+        stream = hs.FakeStream(data)
+        h = RecHandler(target, hs.CIHeaders(pairs), stream, mk_server(registry, chunk))
         esc = run_method(h, method)
         if esc is not None:
             if esc.startswith('spin:'):
@@ -747,6 +748,10 @@ def _handler_case(method, target, rs, has_disp, mr, ho, go, deferred, ae, chunk,
                 orc.fail(_target_failure(esc, method, target))
             return orc.result()
         code = check_exchange(orc, h, method)
+        if method == 'POST' and code is not None:
+            # the handler instance serves the next request of the connection from the same stream: bytes of this request that were
+            # not read would be parsed as that next request (the body of a rejected request gets executed)
+            orc.check(h.close_connection or stream.pos >= len(data), 'POST:unread-request-bytes-left-on-an-open-connection')
         if code == 200:
             orc.check(touched(disp, service) == 1, method + ':200-without-dispatch')
         elif code is not None and (not has_disp or rs in REJECTING_SCENARIOS or mr != 0 or not act):
@@ -764,8 +769,10 @@ REQ_SCENARIOS = (
     ((('Content-Length', '4'), ('Content-Encoding', 'bogus')), b'<x/>'),          # DecompressError
     ((), b''),                                                                     # no body at all
     ((('Content-Length', '7'), ('Content-Encoding', 'gzip')), GZ_ABC[:7]),         # corrupt gzip: codec rejection
+    ((('Content-Length', 'abc'),), b'POST /k/Get HTTP/1.1\r\nContent-Length: 4\r\n\r\n<x/>'),   # body of unknown length = a request
+    ((('Content-Length', '-1'),), b'POST /k/Get HTTP/1.1\r\nContent-Length: 4\r\n\r\n<x/>'),
 )
-REJECTING_SCENARIOS = (2, 3, 5)
+REJECTING_SCENARIOS = (2, 3, 5, 6, 7)
 # request targets by class (case split `tclass`): first path element registered / not registered / no path component at all /
 # authority that urlparse refuses
 TARGETS = (('/k', '/k/Get', '/k/?wsdl', 'k', 'http://h/k/?wsdl', '/k#f', '/k?wsdl', 'k/'),
@@ -779,7 +786,7 @@ def handler_post(rs: int, tclass: int, target: int, has_disp: bool, mr: int, act
     """
     do_POST end to end over stubbed XML: framing scenario x request target x dispatcher present x message-reader outcome x
     action registered x handler outcome x dispatcher kind x Accept-Encoding x chunked response.
-    pre: 0 <= rs < 6
+    pre: 0 <= rs < 8
     pre: 0 <= tclass < 4
     pre: 0 <= target < 8
     pre: 0 <= mr < 3
@@ -790,7 +797,7 @@ def handler_post(rs: int, tclass: int, target: int, has_disp: bool, mr: int, act
     post: __return__ == 'ok'
     """
     UNKNOWN_ACTION[0] = UNKNOWN_ACTIONS[0] if act else pick(ua, UNKNOWN_ACTIONS)
-    rs = pick(rs, tuple(range(6)))
+    rs = pick(rs, tuple(range(8)))
     has_disp = bool(has_disp)
     target = pick(target, pick(tclass, TARGETS))
     mr, act, deferred = pick(mr, (0, 1, 2)), bool(act), bool(deferred)
